@@ -8,6 +8,8 @@ mod c01;
 mod c02;
 mod c13;
 mod c04;
+mod c08;
+mod c12;
 mod cli;
 mod ledger;
 
@@ -73,6 +75,8 @@ fn main() {
         "c03" => c02::run(&o, "C03"),
         "c13" => c13::run(&o),
         "c04" => c04::run(&o),
+        "c08" => c08::run(&o),
+        "c12" => c12::run(&o),
         _ => {
             eprintln!("unknown property {}", prop);
             std::process::exit(2);
